@@ -7,13 +7,16 @@
 #define REACH(msg) __CPROVER_assert(0, "REACH " msg)
 unsigned base_clears, frees, resets; bool nn_nonempty, motions_nonempty, pdf_nonempty, disc_nonempty, tstart_nonempty, tgoal_nonempty, connection_set, bsp_fresh, HAS_BOUNDS, tree_rebuilt;
 void *lastGoalMotion_; double distanceBetweenTrees_; int iteration_;
+bool open_nonempty, nbh_nonempty, graphlb_nonempty, graphapx_nonempty; unsigned collisionChecks_, iterations_; double bestCost_;
+/* BIT* */
+unsigned helper_resets; bool goal_vertex_set, hasExactSolution_, stopLoop_, setup_; unsigned bestLength_, numBatches_, numPrunings_, numIterations_, numEdgeCollisionChecks_, numRewirings_; double prunedCost_, prunedMeasure_;
 static void BASE_CLEAR(void) { base_clears++; }
 static void FREE_MEMORY(void) { frees++; }
 void pl_clear(void)
 /*@BODY pl_clear@*/
 void h_pl_clear(void)
 {
-    int dummy; base_clears = frees = resets = 0; nn_nonempty = motions_nonempty = pdf_nonempty = disc_nonempty = tstart_nonempty = tgoal_nonempty = connection_set = true; lastGoalMotion_ = &dummy; bsp_fresh = false; tree_rebuilt = false;
+    int dummy; base_clears = frees = resets = 0; nn_nonempty = motions_nonempty = pdf_nonempty = disc_nonempty = tstart_nonempty = tgoal_nonempty = connection_set = true; lastGoalMotion_ = &dummy; bsp_fresh = false; tree_rebuilt = false; open_nonempty = nbh_nonempty = graphlb_nonempty = graphapx_nonempty = true; helper_resets = 0; goal_vertex_set = true; setup_ = true;
     pl_clear();
     __CPROVER_assert(base_clears == 1, "C03.clear the base planner state (input-state cursors, setup flag) is cleared");
 #ifdef HAS_FREE
@@ -39,6 +42,16 @@ void h_pl_clear(void)
 #endif
 #ifdef HAS_BSP
     __CPROVER_assert(iteration_ == 1 && (!HAS_BOUNDS || bsp_fresh), "C03.clear the iteration counter restarts and a fresh root cell is created");
+#endif
+#ifdef HAS_FMT
+    __CPROVER_assert(!open_nonempty && !nbh_nonempty && collisionChecks_ == 0, "C03.clear the open set and the cached neighbourhoods (pointers to freed motions) are emptied, the check counter restarts");
+#endif
+#ifdef HAS_LBT
+    __CPROVER_assert(!graphlb_nonempty && !graphapx_nonempty && iterations_ == 0 && bestCost_ == __builtin_inf(), "C03.clear both graphs are emptied, iteration counter and best cost restart");
+#endif
+#ifdef HAS_BIT
+    __CPROVER_assert(helper_resets == 3 && !goal_vertex_set && !hasExactSolution_ && !stopLoop_ && !setup_, "C03.clear the graph, queue and cost helper are reset, no incumbent and no stop request survive, the planner must be set up again");
+    __CPROVER_assert(bestCost_ == __builtin_inf() && prunedCost_ == __builtin_inf() && bestLength_ == 0 && numIterations_ == 0 && numBatches_ == 0 && numPrunings_ == 0 && numRewirings_ == 0 && numEdgeCollisionChecks_ == 0 && prunedMeasure_ == 0.0, "C03.clear the incumbent cost is infinite again and every progress counter restarts (the first solve() after clear() behaves like a first call)");
 #endif
     REACH("cleared");
 }
